@@ -60,7 +60,7 @@ def run(tier):
                     continue
             if not ins:
                 continue
-            if (f.path in SWITCHERS or f.path in EV.scope_entering_helpers(fx, "env")) and field == "env":
+            if (f.path in SWITCHERS or (f.path in EV.scope_entering_helpers(fx, "env") and not EV.fallible(fx, f))) and field == "env":
                 ck.instance(rule, f.path + " (environment switcher)", F.short_span(ins[0][1]))
                 continue
             closers = {b for b, _ in res} | ho
@@ -72,6 +72,8 @@ def run(tier):
                 seen_sites.add(site)
                 n_env += 1
                 esc = E.escapes_some_sensitive(fx, f, b, closers, assume=tuple(E.some_facts_at(fx, f, b)))
+                if b in closers and not any(s[0] == "a" and EV.is_env_place(s[1], field) and s[2][0] != "ref" for s in f.blocks[b]["s"]):
+                    esc = None   # installed on entry to this block (the Ok edge of a fallible helper); the block itself hands the saved value on
                 ck.instance(rule, "%s/%s" % (f.path, field), site, ok=esc is None)
                 if esc is not None:
                     wit = E.path_witness(f, b, closers)
@@ -214,6 +216,16 @@ def run(tier):
                 # every path from the Err arm to a return passes a closer
                 esc = E.escapes(st, sb, closers | {x for n, x in arms.items() if x != err_t})
                 ok = esc is None
+        if not ok:
+            # `process_vm_result(..).map_err(|e| { self.abort_active_execution(); e })?`: the Err outcome runs the closure
+            for b2, t2 in st.calls():
+                if (t2[1].get("d") or "").endswith("Result::<T, E>::map_err") and t2[2] and t2[2][0][0] in ("c", "m") and t2[2][0][1][0] == res_local and len(t2[2]) > 1 \
+                        and t2[2][1][0] in ("c", "m"):
+                    cty = fx.tys(st.locals[t2[2][1][1][0]])
+                    for g in fx.fns.values():
+                        if g.closure and g.parent == st.path and ("{closure@%s:" % g.span.split("-")[0]) in cty and \
+                                any((t3[1].get("d") or "").endswith(("Interpreter::abort_active_execution", "Interpreter::finalize_active_execution")) for _, t3 in g.calls()):
+                            ok = True
         ck.instance("R3.terminal-restore", "step/process_vm_result Err arm", F.short_span(t[6]), ok=bool(ok))
         if not ok:
             ck.finding("R3.terminal-restore", "R3.terminal-restore/step", F.short_span(t[6]),
